@@ -29,6 +29,24 @@ def check(rep):
     PR.rule_trailing_raise(ctx, rid="C07.ENDS-IN-GROUP-OR-UNROUTABLE")
     PR.rule_literal_terms(ctx, rid="C07.TERM-RENDER")
     PR.rule_ident_positions(ctx)
+    # the evaluator execs the text with separate globals/locals: a helper defined at the module level of the generated text
+    # lands in the locals dict, where the generated function (whose globals are the evaluator module's) cannot see it
+    info = PR.trace_generated_text(ctx, ctx.mod("experiment_evaluator.py"),
+                                   ctx.mod("experiment_evaluator.py").get_method("ExperimentEvaluator", "recompile"))
+    if info.get("expose") is None:
+        import ast as _ast
+        init = ctx.mod("codegen/python/python_generator.py").get_method("PythonCodeGen", "__init__")
+        names = [a.arg for a in init.args.args]
+        dflt = dict(zip(names[len(names) - len(init.args.defaults):], init.args.defaults))
+        d = dflt.get("expose_experiment_variant_function")
+        info["expose"] = repr(d.value) if isinstance(d, _ast.Constant) else None
+    rep.check(info.get("expose") in ("False",) and not [p_ for p_ in info["problems"] if "no PythonCodeGen" in p_],
+              "C07.EVALUATOR-LAYOUT", "experiment_evaluator.py:ExperimentEvaluator.recompile[layout]",
+              "recompile compiles the nested-helper layout (the helper is a closure of the generated function)"
+              if info.get("expose") in ("False",) else
+              f"recompile compiles the layout expose={info.get('expose')}: the helper is defined at the top level of the exec'd text, "
+              "i.e. in the exec locals, and is not visible from the generated function (NameError at evaluation)",
+              text=f"expose={info.get('expose')}")
     rep.assume("NOT decided: interpreter limits (recursion depth, CPython's nesting limits) for sizes beyond the explored family; "
                "run-time TypeError from type-incompatible inputs")
     return ("Decides that no sentence of the grammar can be mis-tokenised (every deviation from maximal munch and every token "
